@@ -18,7 +18,6 @@ type Schema struct {
 
 	pattern       string
 	compileOnce   sync.ErrOnce
-	generatorOnce sync.ErrOnceWithValue[*reggen.Generator]
 	generatorSeed int64
 }
 
@@ -76,17 +75,13 @@ func (s *Schema) Example() ([]byte, error) {
 }
 
 func (s *Schema) generateExample() ([]byte, error) {
-	g, err := s.generatorOnce.Do(func() (*reggen.Generator, error) {
-		g, err := reggen.NewGenerator(s.pattern)
-		if err != nil {
-			return nil, err
-		}
-		g.SetSeed(s.generatorSeed)
-		return g, nil
-	})
+	// A generator advances its random source on every call: build it anew so that
+	// equal calls give equal examples.
+	g, err := reggen.NewGenerator(s.pattern)
 	if err != nil {
 		return nil, err
 	}
+	g.SetSeed(s.generatorSeed)
 
 	return []byte(g.Generate(1)), nil
 }
